@@ -6,58 +6,40 @@ from .. import pl, progs, semcheck, tlc
 from . import common
 
 
-def run(ctx):
-    P = semcheck.gen_programs(ctx.seed * 7919 + 311, ctx.pick(120, 1500), "strat", evidence=False, max_worlds=128, nonground=False)
-    P += common.ad_family(ctx.pick(100, 1200), ctx.seed + 31000)
-    P += common.family_small(ctx.pick(60, 800), ctx.seed + 31100)
-    # probabilistic clauses (annotated disjunctions WITH a body, one or two heads) whose annotations include the boundary values 0 and 1
-    import random as _rnd
-    rb = _rnd.Random(ctx.seed + 31415)
-    for k in range(ctx.pick(80, 800)):
-        p = progs.empty_program(("c1",))
-        for f in ("d", "e"):
-            p["facts"].append({"p": [rb.randint(2, 8), 10], "atom": progs.atom(f)})
-        for _ in range(rb.randint(1, 2)):
-            hs = rb.sample(["a", "b"], rb.randint(1, 2))
-            vals = [rb.choice([0, 0, 10, 3, 5]) for _ in hs]
-            if sum(vals) > 10:
-                vals = [0 if i else vals[0] for i in range(len(vals))]
-            body = [progs.lit(progs.atom(rb.choice(["d", "e"])), 0 if rb.random() < 0.3 else 1) for _ in range(rb.randint(1, 2))]
-            p["ads"].append({"heads": [{"p": [v, 10], "atom": progs.atom(h)} for h, v in zip(hs, vals)], "body": body})
-        p["queries"] = [progs.atom(h) for h in sorted({h["atom"]["f"] for ad in p["ads"] for h in ad["heads"]})]
-        P.append(p)
-    # one annotated disjunction reaching one exported atom through several of its outcomes: a rule head over a
-    # non-ground call of the AD's heads, and an AD that repeats a head atom
-    import random
-    rng = random.Random(ctx.seed + 313131)
-    for k in range(ctx.pick(60, 600)):
-        p = progs.empty_program(("c1", "c2", "c3"))
-        nh = rng.randint(2, 3)
-        ws = [rng.randint(1, 3) for _ in range(nh)]
-        if rng.random() < 0.5:
-            heads = [{"p": [w, 10], "atom": progs.atom("p", "c%d" % (i + 1))} for i, w in enumerate(ws)]
-            p["ads"].append({"heads": heads, "body": []})
-            p["rules"].append({"head": progs.atom("q"), "body": [progs.lit(progs.atom("p", "X"))]})
-            if rng.random() < 0.5:
-                p["facts"].append({"p": [rng.randint(1, 9), 10], "atom": progs.atom("f")})
-                p["rules"].append({"head": progs.atom("q"), "body": [progs.lit(progs.atom("f"))]})
-                p["queries"].append(progs.atom("f"))
-            if rng.random() < 0.4:
-                p["rules"].append({"head": progs.atom("r"), "body": [progs.lit(progs.atom("p", "c1"))]})
-                p["queries"].append(progs.atom("r"))
-            p["queries"].append(progs.atom("q"))
-        else:
-            names = ["a", "a", "b"][:nh] if rng.random() < 0.7 else ["a", "b", "a"][:nh]
-            heads = [{"p": [w, 10], "atom": progs.atom(n)} for n, w in zip(names, ws)]
-            body = []
-            if rng.random() < 0.4:
-                p["facts"].append({"p": [rng.randint(1, 9), 10], "atom": progs.atom("f")})
-                body = [progs.lit(progs.atom("f"))]
-            p["ads"].append({"heads": heads, "body": body})
-            p["queries"].append(progs.atom("a"))
-            if "b" in names:
-                p["queries"].append(progs.atom("b"))
-        P.append(p)
+import hashlib
+import os
+
+CORPUS_SEED = 313131
+KNOWN_CASES = os.path.join(os.path.dirname(os.path.dirname(os.path.dirname(os.path.abspath(__file__)))), "tools", "c31_corpus_known.json")
+
+
+def corpus():
+    """A FIXED set of programs (independent of the run's seed): the bn export of the pinned tree crashes or drops / misroutes
+    variables on many programs (KF25, KF26, KF36: broad signatures); on this corpus the failing programs are listed one by one
+    in tools/c31_corpus_known.json, so that any OTHER program that starts to fail is reported."""
+    P = semcheck.gen_programs(CORPUS_SEED, 140, "strat", evidence=False, max_worlds=128, nonground=False)
+    P += common.ad_family(90, CORPUS_SEED)
+    P += common.family_small(70, CORPUS_SEED)
+    return P
+
+
+def case_key(p):
+    q = {k: v for k, v in p.items() if k != "id"}
+    return hashlib.sha1(progs.canon(q).encode()).hexdigest()[:12]
+
+
+def run_corpus(ctx):
+    P = corpus()
+    unstable = set(json.load(open(KNOWN_CASES)).get("unstable_programs", [])) if os.path.exists(KNOWN_CASES) else set()
+    P = [p for p in P if case_key(p) not in unstable]
+    before = ctx.evaluations
+    cases, nontriv, skipped = judge_programs(ctx, P, sigx=lambda p: {"corpus": True, "corpus_case": case_key(p) + "/bn"})
+    return {"programs": len(P), "judged": len(cases), "runs": ctx.evaluations - before, "excluded_unstable_programs": len(unstable)}
+
+
+def judge_programs(ctx, P, sigx=None):
+    """run the bn export on every program, let TLC multiply the network out, compare with the semantics; sigx(p) adds fields to
+    every violation signature"""
     for p in P:
         p["evidence"] = []
     P = [p for p in P if all(not progs.atom_vars(q) for q in p["queries"])]
@@ -69,6 +51,8 @@ def run(ctx):
         ctx.evaluations += 1
         t = progs.render(p)
         sig0 = dict(semcheck.triggers(p))
+        if sigx:
+            sig0.update(sigx(p))
         sig0["has_ad"] = bool(p["ads"])
         adh = {h["atom"]["f"] for ad in p["ads"] for h in ad["heads"]}
         sig0["ad_head_in_conj"] = any(len(r_["body"]) >= 2 and any(l["atom"]["f"] in adh for l in r_["body"]) for r_ in p["rules"])
@@ -124,12 +108,69 @@ def run(ctx):
                     q["name"], q["bnNum"], q["bnDen"], q["plNum"], q["plDen"], t), case)
         if len(ctx.samples) < 2:
             ctx.sample({"text": t, "network": {"vars": c["vars"], "factors": c["factors"][:6]}, "tlc": jb})
+    return cases, nontriv, skipped
+
+
+def run(ctx):
+    P = semcheck.gen_programs(ctx.seed * 7919 + 311, ctx.pick(120, 1500), "strat", evidence=False, max_worlds=128, nonground=False)
+    P += common.ad_family(ctx.pick(100, 1200), ctx.seed + 31000)
+    P += common.family_small(ctx.pick(60, 800), ctx.seed + 31100)
+    # probabilistic clauses (annotated disjunctions WITH a body, one or two heads) whose annotations include the boundary values 0 and 1
+    import random as _rnd
+    rb = _rnd.Random(ctx.seed + 31415)
+    for k in range(ctx.pick(80, 800)):
+        p = progs.empty_program(("c1",))
+        for f in ("d", "e"):
+            p["facts"].append({"p": [rb.randint(2, 8), 10], "atom": progs.atom(f)})
+        for _ in range(rb.randint(1, 2)):
+            hs = rb.sample(["a", "b"], rb.randint(1, 2))
+            vals = [rb.choice([0, 0, 10, 3, 5]) for _ in hs]
+            if sum(vals) > 10:
+                vals = [0 if i else vals[0] for i in range(len(vals))]
+            body = [progs.lit(progs.atom(rb.choice(["d", "e"])), 0 if rb.random() < 0.3 else 1) for _ in range(rb.randint(1, 2))]
+            p["ads"].append({"heads": [{"p": [v, 10], "atom": progs.atom(h)} for h, v in zip(hs, vals)], "body": body})
+        p["queries"] = [progs.atom(h) for h in sorted({h["atom"]["f"] for ad in p["ads"] for h in ad["heads"]})]
+        P.append(p)
+    # one annotated disjunction reaching one exported atom through several of its outcomes: a rule head over a
+    # non-ground call of the AD's heads, and an AD that repeats a head atom
+    import random
+    rng = random.Random(ctx.seed + 313131)
+    for k in range(ctx.pick(60, 600)):
+        p = progs.empty_program(("c1", "c2", "c3"))
+        nh = rng.randint(2, 3)
+        ws = [rng.randint(1, 3) for _ in range(nh)]
+        if rng.random() < 0.5:
+            heads = [{"p": [w, 10], "atom": progs.atom("p", "c%d" % (i + 1))} for i, w in enumerate(ws)]
+            p["ads"].append({"heads": heads, "body": []})
+            p["rules"].append({"head": progs.atom("q"), "body": [progs.lit(progs.atom("p", "X"))]})
+            if rng.random() < 0.5:
+                p["facts"].append({"p": [rng.randint(1, 9), 10], "atom": progs.atom("f")})
+                p["rules"].append({"head": progs.atom("q"), "body": [progs.lit(progs.atom("f"))]})
+                p["queries"].append(progs.atom("f"))
+            if rng.random() < 0.4:
+                p["rules"].append({"head": progs.atom("r"), "body": [progs.lit(progs.atom("p", "c1"))]})
+                p["queries"].append(progs.atom("r"))
+            p["queries"].append(progs.atom("q"))
+        else:
+            names = ["a", "a", "b"][:nh] if rng.random() < 0.7 else ["a", "b", "a"][:nh]
+            heads = [{"p": [w, 10], "atom": progs.atom(n)} for n, w in zip(names, ws)]
+            body = []
+            if rng.random() < 0.4:
+                p["facts"].append({"p": [rng.randint(1, 9), 10], "atom": progs.atom("f")})
+                body = [progs.lit(progs.atom("f"))]
+            p["ads"].append({"heads": heads, "body": body})
+            p["queries"].append(progs.atom("a"))
+            if "b" in names:
+                p["queries"].append(progs.atom("b"))
+        P.append(p)
+    cases, nontriv, skipped = judge_programs(ctx, P)
+    corpus_cov = run_corpus(ctx)
     ctx.write_evidence("translation_validation", {
         "programs": len(cases), "disagreements_checked": sum(len(c["queries"]) for c in cases),
         "evaluations": ctx.evaluations, "distinct_nontrivial": nontriv,
         "rule": "evidence-free generated programs (ground queries; facts, ADs with bodies, rules, stratified negation, cycles); the "
                 "network's CPTs are multiplied out exactly by TLC; non-trivial = more than 4 CPTs",
-        "skipped": skipped}, assumptions=["CPT entries must be multiples of 0.1 (programs use tenths); other programs are skipped and counted",
+        "skipped": skipped, "corpus": corpus_cov}, assumptions=["CPT entries must be multiples of 0.1 (programs use tenths); other programs are skipped and counted",
                                           "the two exact fractions (network marginal, semantics) are compared by the harness (cross "
                                           "multiplication would overflow TLC's 32-bit integers)"])
 
